@@ -140,7 +140,11 @@ def run_eval(op, key, pool, args, ctx, tmpdir):
                 res = np.asarray(model.marginal_cdf(arr(X[:2, 0]), 0))
         elif name == "marginal_icdf":
             np.random.seed(seed % (2**32))  # Monte-Carlo for conditional / transformed variables (global RNG)
-            res = np.asarray(model.marginal_icdf(arr([0.2, 0.8]), op["seed"] % n_dim))
+            if is_t and seed % 2 == 0:
+                # the way IFORMContour calls it: with the seed the model was constructed with
+                res = np.asarray(model.marginal_icdf(arr([0.2, 0.8]), op["seed"] % n_dim, model.precision_factor, random_state=model.random_state))
+            else:
+                res = np.asarray(model.marginal_icdf(arr([0.2, 0.8]), op["seed"] % n_dim))
         elif name == "draw_sample":
             if is_t:
                 np.random.seed(seed % (2**32))
@@ -148,10 +152,11 @@ def run_eval(op, key, pool, args, ctx, tmpdir):
             else:
                 res = np.asarray(model.draw_sample(50, random_state=seed))
         elif name in ("iform", "isorm"):
-            if is_t:
+            if is_t and name == "isorm":
                 return None
             cls = virocon.IFORMContour if name == "iform" else virocon.ISORMContour
-            c = cls(model, op["alpha"], n_points=12)
+            # (a seeded TransformedModel evaluates every contour point by Monte Carlo from model.random_state)
+            c = cls(model, max(op["alpha"], 1e-3) if is_t else op["alpha"], n_points=5 if is_t else 12)
             res = np.asarray(c.coordinates)
         elif name == "hdc":
             if is_t or n_dim != 2:
